@@ -807,6 +807,33 @@ func (it *Interp) compute(fr *frame, v ssa.Value) AV {
 				return a
 			}
 		}
+		if a.Kind == KSlice {
+			// a known element list resliced at known constant bounds
+			lo, hi, ok := 0, len(a.Tup), true
+			bound := func(v ssa.Value, def int) int {
+				if v == nil {
+					return def
+				}
+				b := it.val(fr, v)
+				if b.Kind == KConst && b.C.Kind() == constant.Int {
+					if k, exact := constant.Int64Val(b.C); exact {
+						return int(k)
+					}
+				}
+				ok = false
+				return def
+			}
+			lo, hi = bound(x.Low, lo), bound(x.High, hi)
+			if ok && 0 <= lo && lo <= hi && hi <= len(a.Tup) {
+				sl := AV{Kind: KSlice, Tup: append([]AV{}, a.Tup[lo:hi]...)}
+				var es []string
+				for _, e := range sl.Tup {
+					es = append(es, e.String())
+				}
+				sl.Key = "[" + strings.Join(es, ", ") + "]"
+				return sl
+			}
+		}
 		return it.lookup("slice(" + a.String() + ")")
 	case *ssa.Range:
 		return Sym("range(" + it.val(fr, x.X).String() + ")")
